@@ -1,10 +1,3 @@
 import SodiumModel.Model.Alloc
-import SodiumModel.Proofs.Pad
-/-
-  Helper lemmas for C17 (guarded allocation). Put all lemmas in namespace Sodium.AllocP.
-  `Proofs/Pad.lean` already has `pow2_of_and_pred` / `and_pred_eq_mod` (n &&& (2^k - 1) = n % 2^k).
--/
-open Sodium Sodium.Model
 namespace Sodium.AllocP
-
 end Sodium.AllocP
